@@ -9,8 +9,8 @@ def correspond(ctx):
     ctx.extra["rule"] = ("grids up to 5x5 (incl. 1xN, Nx1) and random graphs n<=6; is_active as variables/negations/compound "
                          "expressions; programs emitted by the real active_vertices_not_adjacent and "
                          "active_vertices_not_adjacent_and_not_segmenting vs the Lean model's programs")
-    graphcorr.run_cases(ctx, graphcorr.case_nadj, ctx.n(300, 4000), "nadj")
-    graphcorr.run_cases(ctx, graphcorr.case_nseg, ctx.n(300, 4000), "nseg")
+    graphcorr.run_cases(ctx, graphcorr.case_nadj, ctx.n(300, 4000), "nadj", bigs=graphcorr.graph_bigs() + graphcorr.grid_bigs())
+    graphcorr.run_cases(ctx, graphcorr.case_nseg, ctx.n(300, 4000), "nseg", bigs=graphcorr.graph_bigs() + graphcorr.grid_bigs())
     if not ctx.quick():
         for f in search(ctx, None, maxcells=16):
             ctx.disagree("semantic", what=f.what, data=f.data)
@@ -81,6 +81,27 @@ def _check_nseg_graph(n, edges):
         want = _defn(n, edges, pat)
         if got != want:
             return list(pat), got, want
+    return None
+
+
+def _check_graph_patterns(n, edges, seg, patterns):
+    """Selected activity patterns of a medium / large graph (see graphs.independent_patterns) on the graph forms of
+    active_vertices_not_adjacent (seg=False) / ..._and_not_segmenting (seg=True)."""
+    from cspuz import graph as G
+    mk = graphs.mk_graph(n, edges)
+
+    def builder(s):
+        if seg:
+            vs = s.bool_array(n)
+            return lambda: G.active_vertices_not_adjacent_and_not_segmenting(s, vs, mk)
+        vs = [s.bool_var() for _ in range(n)]
+        return lambda: G.active_vertices_not_adjacent(s, vs, mk)
+    decls, cs, base, _ = graphs.real_program(builder)
+    for name, pat in patterns:
+        got = exprio.solve_prog(decls, cs, base, {f"b{i}": pat[i] for i in range(n)}) is not None
+        want = _defn(n, edges, pat) if seg else not any(pat[u] and pat[v] for u, v in edges)
+        if got != want:
+            return name, [v for v in range(n) if pat[v]], got, want
     return None
 
 
@@ -177,19 +198,37 @@ def search(ctx, why, maxcells=None):
                 "nseg-grid:2d",
                 f"active_vertices_not_adjacent_and_not_segmenting on a {h}x{w} BoolArray2D, pattern {bad[0]}: satisfiable={bad[1]} "
                 f"but the graph definition gives {bad[2]}", {"h": h, "w": w, "pattern": bad[0], "kind": "nseg-big"})
+    # medium / LARGE graphs (vertex ids >= 257): single vertices, cut vertices, adjacent pairs at both ends of the index range
+    for (n, edges) in graphs.big_graphs():
+        for seg in (False, True):
+            key = "big:" + ("nseg" if seg else "nadj")
+            if key in found:
+                continue
+            try:
+                bad = _check_graph_patterns(n, edges, seg, graphs.independent_patterns(n, edges))
+            except Exception as e:
+                bad = ("exception", None, core.err_name(e), str(e)[:200])
+            ctx.count("search:" + key)
+            if bad:
+                found[key] = Finding(
+                    ("nseg" if seg else "nadj") + "-graph:large",
+                    f"active_vertices_not_adjacent{'_and_not_segmenting' if seg else ''} (graph form) on a graph with {n} vertices and {len(edges)} "
+                    f"edges (edges {edges[:4]} ... {edges[-6:]}), active vertices ({bad[0]}) = "
+                    f"{bad[1] if bad[1] is None or len(bad[1]) <= 16 else str(bad[1][:8]) + ' ... ' + str(bad[1][-8:])}: satisfiable={bad[2]} expected {bad[3]}",
+                    {"kind": "big-graph", "n": n, "edges": edges, "seg": seg, "pattern_name": bad[0], "active": bad[1]})
     for (n, edges) in graphs.small_graphs(ctx.rng, ctx.n(20, 40), 5):
         if any(a == b for a, b in edges):
             continue
         bad = _check_nadj(n, edges)
         if bad and "nadj-graph" not in found:
-            found["nadj-graph"] = Finding("nadj-graph", f"active_vertices_not_adjacent on n={n} edges={edges}, pattern {bad[0]}: sat={bad[1]} expected {bad[2]}",
+            found["nadj-graph"] = Finding("nadj-graph", f"active_vertices_not_adjacent on n={n} edges={edges}, pattern {bad[0]}: sat={bad[1]} expected {bad[2]}" + graphs.history_note(n, edges),
                                           {"n": n, "edges": edges, "pattern": bad[0], "kind": "nadj-graph"})
         try:
             bad = _check_nseg_graph(n, edges)
         except Exception as e:
             bad = ("exception", core.err_name(e), str(e)[:200])
         if bad and "nseg-graph" not in found:
-            found["nseg-graph"] = Finding("nseg-graph", f"not_adjacent_and_not_segmenting (graph form) on n={n} edges={edges}, pattern {bad[0]}: sat={bad[1]} expected {bad[2]}",
+            found["nseg-graph"] = Finding("nseg-graph", f"not_adjacent_and_not_segmenting (graph form) on n={n} edges={edges}, pattern {bad[0]}: sat={bad[1]} expected {bad[2]}" + graphs.history_note(n, edges),
                                           {"n": n, "edges": edges, "pattern": bad[0], "kind": "nseg-graph"})
     return list(found.values())
 
@@ -204,6 +243,10 @@ def replay(ctx, data):
         bad = _check_nadj(data["h"] * data["w"], graphs.grid_edges(data["h"], data["w"]), (data["h"], data["w"]))
     elif k == "nadj-graph":
         bad = _check_nadj(data["n"], [tuple(e) for e in data["edges"]])
+    elif k == "big-graph":
+        act = set(data["active"] or [])
+        bad = _check_graph_patterns(data["n"], [tuple(e) for e in data["edges"]], data["seg"],
+                                    [(data.get("pattern_name"), [v in act for v in range(data["n"])])])
     elif k == "nseg-graph":
         bad = _check_nseg_graph(data["n"], [tuple(e) for e in data["edges"]])
     else:
